@@ -98,6 +98,19 @@ def _run(stmts: List[ast.stmt], env: Dict[str, ast.AST]) -> Tuple[Dict[str, ast.
             env = dict(env)
             env[s.target.id] = _subst(s.value, env)
             continue
+        if isinstance(s, ast.Assign) and len(s.targets) == 1 and isinstance(s.targets[0], (ast.Tuple, ast.List)) \
+                and all(isinstance(e, ast.Name) for e in s.targets[0].elts):
+            # a, b = x, y  element-wise;  a, b, c = e  as e[0], e[1], e[2]
+            env = dict(env)
+            val = _subst(s.value, env)
+            tg = s.targets[0].elts
+            if isinstance(val, (ast.Tuple, ast.List)) and len(val.elts) == len(tg) and not any(isinstance(e, ast.Starred) for e in val.elts):
+                for t_, v_ in zip(tg, val.elts):
+                    env[t_.id] = v_
+            else:
+                for i_, t_ in enumerate(tg):
+                    env[t_.id] = ast.Subscript(value=copy.deepcopy(val), slice=ast.Constant(value=i_), ctx=ast.Load())
+            continue
         if isinstance(s, ast.Return):
             if s.value is None:
                 return env, ast.Constant(value=None)
